@@ -22,7 +22,9 @@ CONSTANTS Types,      \* message types with a local definition
 ACKT == 2
 ALLT == 2147483647
 (* frame classes *)
-Classes == {"good", "zerolen", "unknown", "wrongsize", "wrongver", "zerover", "ack"}
+Classes == {"good", "zerolen", "unknown", "wrongsize", "wrongsize0", "wrongver", "wrongver0", "zerover", "ack"}
+(* wrongsize0: a type with a non-empty local definition arriving with NO payload; wrongver0: a signal (empty definition)
+   carrying a non-zero version hash different from the local one *)
 TimeoutClasses == {"zero", "pos", "tiny", "block"}   \* tiny: a positive timeout shorter than one read
 
 VARIABLES q,          \* unread frames: records [cls, t, id]
@@ -38,8 +40,8 @@ Subscribed(S, f) == S.suball \/ f.t \in S.csub
 (* does the frame decode, and if not, which documented error *)
 Decode(f, sync) ==
   CASE f.cls = "unknown" -> "UnknownMessageType"
-    [] f.cls = "wrongsize" -> "InvalidMessageDefinition"
-    [] f.cls = "wrongver" /\ sync -> "InvalidMessageDefinition"
+    [] f.cls \in {"wrongsize", "wrongsize0"} -> "InvalidMessageDefinition"
+    [] f.cls \in {"wrongver", "wrongver0"} /\ sync -> "InvalidMessageDefinition"
     [] OTHER -> "ok"
 
 (* one call of read_message.  S: [q, cut, csub, suball, connected]
